@@ -684,9 +684,7 @@ func (tb *Table) Extract(a *Term, hi, lo int) *Term {
 	case OpExtract:
 		return tb.Extract(a.A[0], hi+a.J, lo+a.J)
 	case OpBAnd, OpBOr, OpBXor:
-		if a.A[1].IsConst() || hi == lo {
-			// single-bit extracts are always distributed: selector bits of table lookups then become
-			// bits of the underlying variables, whatever shift/or expression computed the index
+		if a.A[1].IsConst() {
 			return tb.Bin(a.Op, tb.Extract(a.A[0], hi, lo), tb.Extract(a.A[1], hi, lo))
 		}
 	case OpLShr:
